@@ -21,7 +21,10 @@ import (
 
 // Findings of other properties that surface here because linked descriptors are made by
 // filedesc.Builder (the subject of C37).
-const kfEnumFeatures = "KF-filedesc-enum-features"
+const (
+	kfEnumFeatures = "KF-filedesc-enum-features"
+	kfExtLazy      = "KF-protodesc-ext-lazy"
+)
 
 // ---------------------------------------------------------------------------------------------
 // (a) every linked file: d -> ToFileDescriptorProto -> NewFile reproduces d
@@ -68,6 +71,11 @@ func checkLinked(c linkedCase) error {
 		rest, explained := descsnap.Without(s1, s2, descsnap.EnumFeatureDisagreements(p))
 		if explained > 0 && !pbt.ExcludeKnown(kfEnumFeatures) {
 			rest = descsnap.DiffKeys(s1, s2)
+		} else if len(rest) > 0 {
+			// linked descriptors are builder-made: a lazy extension shows KF-protodesc-ext-lazy here too
+			if r2, n := descsnap.Without(s1, s2, append(descsnap.EnumFeatureDisagreements(p), descsnap.ExtensionLazyDisagreements(p)...)); n > explained && pbt.ExcludeKnown(kfExtLazy) {
+				rest = r2
+			}
 		}
 		if len(rest) > 0 {
 			return fmt.Errorf("NewFile(ToFileDescriptorProto(d)) does not reproduce d = %s: %s", c.Path, descsnap.Describe(s1, s2, rest))
@@ -88,6 +96,9 @@ func TestLinkedFiles(t *testing.T) {
 					skipped[fd.Path()] = why
 					continue
 				}
+				if descsnap.LegacyLegOnly() && !descsnap.DeclaresMessageSet(fd) {
+					continue // already covered by the default leg
+				}
 				n++
 				rich := schema.Rich(schema.Constructs([]*descriptorpb.FileDescriptorProto{protodesc.ToFileDescriptorProto(fd)}))
 				if !yield(linkedCase{Path: fd.Path()}, rich) {
@@ -97,7 +108,7 @@ func TestLinkedFiles(t *testing.T) {
 		}, checkLinked)
 	pbt.S.SetExtra("linked_files_checked", n)
 	pbt.S.SetExtra("linked_files_out_of_domain", skipped)
-	if n < 40 {
+	if min := map[bool]int{false: 40, true: 5}[descsnap.LegacyLegOnly()]; n < min {
 		t.Errorf("only %d linked files: the corpus is not linked in", n)
 	}
 }
@@ -367,7 +378,7 @@ func TestRandomCanonical(t *testing.T) {
 		Check:      checkSchema(false),
 		NonTrivial: rich,
 		Classes:    classes,
-		Quick:      1200, Thorough: 14000,
+		Quick:      900, Thorough: 14000,
 	})
 }
 
@@ -379,7 +390,7 @@ func TestRandomLoose(t *testing.T) {
 		Check:      checkSchema(true),
 		NonTrivial: rich,
 		Classes:    classes,
-		Quick:      500, Thorough: 6000,
+		Quick:      350, Thorough: 6000,
 	})
 }
 
@@ -391,7 +402,7 @@ func TestRandomBig(t *testing.T) {
 		Check:      checkSchema(false),
 		NonTrivial: rich,
 		Classes:    classes,
-		Quick:      120, Thorough: 1500,
+		Quick:      80, Thorough: 1500,
 	})
 }
 
